@@ -59,7 +59,11 @@ def main():
                     res["demo_pristine_output"] = out[-1500:]
         finally:
             sh("git -C /repo worktree remove --force %s" % wt)
-    # run checks against /repo with the patch applied.
+    # run checks against /repo with the patch applied (exclusive use of /repo's tree).
+    import fcntl
+    lockf = open("/tmp/verif-repo.lock", "w")
+    fcntl.flock(lockf, fcntl.LOCK_EX)
+    os.environ["VERIF_LOCK_HELD"] = "1"
     rc, out = sh("git -C /repo status --porcelain")
     assert out.strip() == "", "/repo not clean: " + out
     rc, out = sh("git -C /repo apply %s" % patch)
